@@ -1,16 +1,16 @@
 SPECIFICATION Spec
 CONSTANTS
   Names = {"n1", "n2"}
-  MaxCreates = 5
-  Slots = {"blocks", "arrays", "mtags", "tags", "features"}
+  MaxCreates = 4
+  Slots = {"blocks", "arrays", "mtags"}
   LinkSlotsOn = {}
   OneSlotsOn = {}
   Acts = {"Create", "CreateBad"}
   MaxLife = 0
   MaxDims = 0
-  MaxSteps = 6
+  MaxSteps = 5
   MaxGen = 0
-  EmitActs = {"CreateBad", "Create"}
+  EmitActs = {"CreateBad"}
   EmitRes = "reject"
   EmitWhen = "always"
 INVARIANTS TypeOK NamesUniqueInv OrderInv NoDanglingInv EidsFresh SearchEqualsBruteForce BreadthFirst BackRefsEqualBruteForce
